@@ -19,6 +19,7 @@
 #include <memory>
 #include <mutex>
 #include <utility>
+#include "celma/common/detail/verif_point.hpp"
 
 
 namespace celma { namespace common {
@@ -114,19 +115,25 @@ template< class T> template< class... Args>
    T& Singleton< T>::instance( Args&&... args)
 {
 
+   CELMA_VERIF_POINT( "sgl.fast_read");
    T*  obj = mpInstance.load( std::memory_order_acquire);
    if (obj == nullptr)
    {
+      CELMA_VERIF_POINT( "sgl.lock");
       const std::lock_guard< std::mutex>  lg( mMutex);
+      CELMA_VERIF_POINT( "sgl.slow_read");
       obj = mpInstance.load( std::memory_order_relaxed);
       if (obj == nullptr)
       {
          mpObject.reset( new T( std::forward< Args>( args)...));
          obj = mpObject.get();
          mpInstance.store( obj, std::memory_order_release);
+         CELMA_VERIF_POINT( "sgl.published");
       } // end if
+      CELMA_VERIF_POINT( "sgl.unlock");
    } // end if
 
+   CELMA_VERIF_POINT( "sgl.return");
    return *obj;
 } // Singleton< T>::instance
 
